@@ -66,7 +66,7 @@ def run(rep, tier):
                     check_get_app_pointer(rep, db, f, inst); cnt("sandbox")
                 elif nm == SB + "::lookup_app_ptr":
                     check_lookup_app_ptr(rep, db, f, inst); cnt("sandbox")
-                elif nm == AP + "::move_obj" or (nm == AP + "::app_pointer" and len(f["params"]) == 1 and (f["params"][0]["t"] or {}).get("ref") == "r"):
+                elif owners.is_transfer_member(f, AP):
                     owners.check_move_obj(rep, "C15", db, f, inst); cnt("move")
                 elif nm == AP + "::operator=":
                     owners.check_move_assign(rep, "C15", db, f, inst, release_pred, "idx"); cnt("assign")
@@ -75,7 +75,7 @@ def run(rep, tier):
                     owners.check_release(rep, "C15", db, f, inst, release_pred_strict, "idx", owners.field_names(rec)); cnt("release")
             except Inconclusive as ex:
                 rep.inconclusive("R-C15", site(f), str(ex), inst)
-    floors = {"reserve": 1, "fresh": 1, "table": 3, "sandbox": 2, "move": 2, "assign": 1, "release": 2, "unique": 1}
+    floors = {"reserve": 1, "fresh": 1, "table": 3, "sandbox": 2, "move": 1, "assign": 1, "release": 2, "unique": 1}
     for k, v in floors.items():
         rep.require(n.get(k, 0) >= v, "only %d instances for rule group '%s' (floor %d)" % (n.get(k, 0), k, v))
     rep.extra["instances"] = n
@@ -168,8 +168,25 @@ def check_find_use(rep, db, f, inst, use):
             rep.violation("R-C15-table", site(f), "the table is not searched exactly once for the given token", f["loc"], inst)
             return
         fr = (evs[finds[0]].extra or {}).get("ret")
-        same = lambda x: x == fr or (isinstance(x, tuple) and x[:1] in (("var",), ("tmp",)) and p.state.mem.get(("copyof", x)) == fr)
-        chk = [i for i, e in enumerate(evs) if e.kind == "ASSUME" and i > finds[0] and q.mentions(e.a, same) and q.mentions(e.a, lambda x: isinstance(x, tuple) and x[:1] == ("ucall",) and q.short(x[2]) == "operator!=")]
+
+        def same(x):
+            # the search result, also through copies and the iterator -> const_iterator converting constructor
+            for _ in range(6):
+                if x == fr:
+                    return True
+                if not (isinstance(x, tuple) and x[:1] in (("var",), ("tmp",))):
+                    return False
+                c_ = p.state.mem.get(("copyof", x))
+                if c_ is None:
+                    conv = next((e_ for e_ in evs if e_.kind == "CALL" and (e_.extra or {}).get("ret") == x and "iterator" in q.short(e_.a).lower() and len(e_.b) == 1), None)
+                    c_ = conv.b[0] if conv is not None else None
+                if c_ is None:
+                    return False
+                x = c_
+            return False
+        # the comparison with end() may be written either way round (`it != end` asserted, or `it == end` aborting)
+        chk = [i for i, e in enumerate(evs) if e.kind == "ASSUME" and i > finds[0] and (e.extra or {}).get("abort_check") and q.mentions(e.a, same) and
+               q.mentions(e.a, lambda x: isinstance(x, tuple) and x[:1] == ("ucall",) and q.short(x[2]) in ("operator!=", "operator=="))]
         if not chk:
             rep.violation("R-C15-table", site(f), "existence of the token is not checked (abort) before it is used", f["loc"], inst)
             return
@@ -203,6 +220,13 @@ def check_store_idx(rep, db, f, inst):
             cell = (s.extra or {}).get("ret")
             if strip_casts(argvals(s)[0]) == tok and any(e.kind == "STORE" and e.a == cell and e.b == ptr for e in evs):
                 okstore = True
+        # equivalent spellings that store (key, value) in one call
+        val = lambda x: p.state.mem.get(x, x) if isinstance(x, tuple) and x[:1] in (("var",), ("tmp",)) else x
+        for s in evs:
+            if s.kind == "CALL" and q.short(s.a) in ("insert_or_assign",) and s.c is not None and "pointer_map" in fmt(s.c) and len(argvals(s)) == 2:
+                k_, v_ = [strip_casts(val(x)) for x in argvals(s)]
+                if k_ == tok and v_ == ptr:
+                    okstore = True
         if not okstore or strip_casts(p.retval) != tok:
             rep.violation("R-C15-table", site(f), "the pointer is not stored under the token that is returned", f["loc"], inst)
             return
